@@ -37,12 +37,14 @@ def queryUnescape : Bytes → Option Bytes
     else if c = '+' then (queryUnescape rest).map (' ' :: ·)
     else (queryUnescape rest).map (c :: ·)
 
-def splitOn (sep : Char) (l : Bytes) : List Bytes :=
-  l.foldr (fun c acc =>
-    if c = sep then [] :: acc
-    else match acc with
-      | [] => [[c]]
-      | h :: t => (c :: h) :: t) [[]]
+def splitStep (sep c : Char) (acc : List Bytes) : List Bytes :=
+  if c = sep then [] :: acc
+  else match acc with
+    | [] => [[c]]
+    | h :: t => (c :: h) :: t
+
+/-- the pieces between occurrences of `sep` -/
+def splitOn (sep : Char) (l : Bytes) : List Bytes := l.foldr (splitStep sep) [[]]
 
 /-- decoded `(key, value)` pairs in order; a pair with `;`, an empty pair or a bad escape is dropped -/
 def queryPairs (raw : Bytes) : List (Bytes × Bytes) :=
@@ -94,21 +96,24 @@ def afterPrefix (pfx path : Bytes) : Option Bytes :=
   if path.take pfx.length = pfx then some (path.drop pfx.length) else none
 
 /-- path = pfx ++ seg ++ rest with `seg` the non-empty run up to the next `/`: `(seg, rest)` -/
+def segmentAfter (pfx path : Bytes) : Option (Bytes × Bytes) :=
+  match afterPrefix pfx path with
+  | none => none
+  | some after =>
+    let seg := after.takeWhile (· != '/')
+    if seg = [] then none else some (seg, after.dropWhile (· != '/'))
+
 def versionSegment (pattern path : Bytes) : Option (Bytes × Bytes) :=
   match pathPrefix pattern with
   | none => none
-  | some pfx =>
-    match afterPrefix pfx path with
-    | none => none
-    | some after =>
-      let seg := after.takeWhile (· != '/')
-      if seg = [] then none else some (seg, after.dropWhile (· != '/'))
+  | some pfx => segmentAfter pfx path
 
 /-- the version a path pattern names: the segment, with the `v` that ends the prefix put back -/
 def pathVersion (pattern path : Bytes) : Option Bytes :=
-  match versionSegment pattern path, pathPrefix pattern with
-  | some (seg, _), some pfx => if pfx.getLast? = some 'v' then some ('v' :: seg) else some seg
-  | _, _ => none
+  match pathPrefix pattern with
+  | none => none
+  | some pfx =>
+    (segmentAfter pfx path).map fun sr => if pfx.getLast? = some 'v' then 'v' :: sr.1 else sr.1
 
 /-! ### selection -/
 
@@ -134,9 +139,7 @@ def accepted (valid : List Bytes) (v : Bytes) : Bool := v != [] && (valid.isEmpt
 
 /-- the selected version -/
 def selected (cfg : Cfg) (req : Req) : Bytes :=
-  match ((detectionOrder (cfg.opts.zip req.lib)).filterMap (candidate req)).find? (accepted cfg.valid) with
-  | some v => v
-  | none => cfg.dflt
+  (((detectionOrder (cfg.opts.zip req.lib)).filterMap (candidate req)).find? (accepted cfg.valid)).getD cfg.dflt
 
 def hasRoutes (routes : List Route) (ver : Option Bytes) (method : Bytes) : Bool :=
   routes.any fun r => r.ver == ver && r.method == method
@@ -156,26 +159,37 @@ def servingTree (cfg : Cfg) (routes : List Route) (method ver : Bytes) : Option 
     version segment removed when the pattern finds a segment, the path itself otherwise. With several
     path patterns the statement does not say whose segment is removed; every pattern whose prefix the
     path properly extends is admitted, provided some pattern finds a segment. -/
+def patOf : DetOpt → Option Bytes
+  | .path p => some p
+  | _ => none
+
+/-- the configured path patterns, in configuration order -/
+def pathPatterns (cfg : Cfg) : List Bytes := cfg.opts.filterMap patOf
+
+/-- the path with the prefix and the segment that follows it removed (`/` if nothing is left);
+    `none`: the path does not properly extend the prefix -/
+def stripAfter (pfx path : Bytes) : Option Bytes :=
+  match afterPrefix pfx path with
+  | none => none
+  | some after =>
+    if after = [] then none
+    else
+      let rest := after.dropWhile (· != '/')
+      some (if rest = [] then ['/'] else rest)
+
+def stripBy (path pattern : Bytes) : Option Bytes :=
+  match pathPrefix pattern with
+  | none => none
+  | some pfx => stripAfter pfx path
+
 def routingPaths (cfg : Cfg) (path : Bytes) : List Bytes :=
-  let pats := cfg.opts.filterMap fun o => match o with | .path p => some p | _ => none
-  if pats.any (fun p => (versionSegment p path).isSome) then
-    pats.filterMap fun p =>
-      match pathPrefix p with
-      | none => none
-      | some pfx =>
-        match afterPrefix pfx path with
-        | none => none
-        | some after =>
-          if after = [] then none
-          else
-            let rest := (after.dropWhile (· != '/'))
-            some (if rest = [] then ['/'] else rest)
+  if (pathPatterns cfg).any (fun p => (versionSegment p path).isSome) then
+    (pathPatterns cfg).filterMap (stripBy path)
   else [path]
 
+/-- the lifecycle configured for a version: the last `r.Version(v, …)` call with options -/
 def lifecycleOf (cfg : Cfg) (v : Bytes) : Option LC :=
-  match cfg.lifecycles.filter (fun p => p.1 == v) with
-  | [] => none
-  | l => (l.getLast?).map (·.2)
+  ((cfg.lifecycles.filter (fun p => p.1 == v)).getLast?).map (·.2)
 
 /-- past its sunset date under enforcement -/
 def gone (cfg : Cfg) (v : Bytes) : Bool :=
@@ -230,16 +244,20 @@ def specOK (cfg : Cfg) (routes : List Route) (req : Req) (o : Obs) : Bool :=
     o.status = 200 && o.handler == some (none, p) && o.version == some [] && noLifecycleHeaders o
   | none => (routingPaths cfg req.path).any fun rp => outcomeOK cfg routes req rp o
 
+/-- one detection option and the library value shipped for it: the right kind, and for a query option
+    exactly what standard parsing of the raw query says -/
+def agreesOne (req : Req) : DetOpt × LibVal → Bool
+  | (.query q, .query has get) =>
+    (has == (queryFirst req.rawQuery q).isSome) && (get == (queryFirst req.rawQuery q).getD [])
+  | (.query _, _) => false
+  | (.header _, .header _) => true
+  | (.accept _, .accept _) => true
+  | (.custom _, .custom _) => true
+  | (.path _, .none) => true
+  | _ => false
+
 /-- what the harness shipped for the query options is what standard parsing says -/
 def libAgrees (cfg : Cfg) (req : Req) : Bool :=
-  (cfg.opts.zip req.lib).all fun
-    | (.query q, .query has get) =>
-      (has == (queryFirst req.rawQuery q).isSome) && (get == (queryFirst req.rawQuery q).getD [])
-    | (.query _, _) => false
-    | (.header _, .header _) => true
-    | (.accept _, .accept _) => true
-    | (.custom _, .custom _) => true
-    | (.path _, .none) => true
-    | _ => false
+  cfg.opts.length == req.lib.length && (cfg.opts.zip req.lib).all (agreesOne req)
 
 end Rivaas.Version.Spec
